@@ -128,6 +128,9 @@ def _chunk_body(args):
         try:
             plan = _plan_for(check, job, tier, base_seed)
             _HISTORY.append([list(job), plan])
+            if len(_HISTORY) > 6000 and _HISTORY[-6001][1] is not None:
+                # bound the memory of a long-lived worker: older entries keep their job only (regenerated on replay)
+                _HISTORY[-6001][1] = None
             res = execute_guarded(check, plan)
         except Exception:
             out['harness_errors'].append({'job': job, 'trace': traceback.format_exc()[-3000:]})
